@@ -38,6 +38,7 @@ type Prog struct {
 	Overlay map[string][]byte
 	Env     []string
 	Inlined []string // what the helper inliner did (inline.go)
+	Pre     *Prog    // the same program before helper inlining (nil if nothing was inlined): a rule that recognises a call may look here
 
 	SSA     *ssa.Program
 	SSAPkgs map[string]*ssa.Package
@@ -63,6 +64,13 @@ func Load(o LoadOpts) (*Prog, error) {
 	for path, pk := range p.Pkgs {
 		if strings.HasPrefix(path, Mod) {
 			normalize(pk)
+		}
+	}
+	if p.Pre != nil {
+		for path, pk := range p.Pre.Pkgs {
+			if strings.HasPrefix(path, Mod) {
+				normalize(pk)
+			}
 		}
 	}
 	return p, nil
@@ -149,8 +157,18 @@ func loadRaw(o LoadOpts) (*Prog, error) {
 			}
 			fset, cfg.Overlay = p2.Fset, merged
 			inl := append(p.Inlined, fmt.Sprintf("round %d: %d call(s) inlined in %d file(s)", round+1, n, len(ov)))
+			pre := p.Pre
+			if pre == nil {
+				// the inliner rewrites the syntax trees it reads in place: load the un-inlined program afresh
+				o3 := o
+				o3.noInline, o3.noRename = true, true
+				if p3, err := loadRaw(o3); err == nil {
+					pre = p3
+				}
+			}
 			p = p2
 			p.Inlined = inl
+			p.Pre = pre
 		}
 	}
 	for _, need := range []string{PkgGts, PkgSeqio, PkgCache, PkgMain} {
